@@ -321,3 +321,16 @@ Proof.
     destruct (render_blocks wrapper spacing refdefs bs (snd (ta, sa))) as [[tb sb]|] eqn:Eb; [|discriminate].
     injection E as <- _. cbn [fst]. apply ends_nl_app; [eapply render_blk_ends; eauto|eapply IH; eauto].
 Qed.
+
+(* ---- code spans: the delimiter is one backtick longer than the longest run inside, and the
+   content is reproduced verbatim between optional one-space padding ---- *)
+Theorem code_span_shape s :
+  exists pad, (pad = [] \/ pad = [sp]) /\
+    render_code_span s = repeat bq (S (longest_run bq s)) ++ pad ++ s ++ pad ++ repeat bq (S (longest_run bq s)).
+Proof.
+  unfold render_code_span. destruct s as [|c r].
+  - exists []. split; [now left|]. reflexivity.
+  - destruct (_ || _).
+    + exists [sp]. split; [now right|]. reflexivity.
+    + exists []. split; [now left|]. reflexivity.
+Qed.
